@@ -16,15 +16,31 @@ IsEv(name) == l <= Len(Recs) /\ Recs[l].ev = name /\ l' = l + 1
 
 TraceInit == l = 1 /\ deals = <<>> /\ shares = <<>>
 
-\* Sharks(t).dealer_rng(secret bytes, rng): `secret` = the canonical elements, `draws` = the
-\* field elements obtained by running the same random source through the field's own sampler
+\* Sharks(t).dealer_rng(secret bytes, rng): `secret` = the canonical elements; `draws` = the field
+\* elements obtained by running the same random source through the field's own sampler (a few
+\* more than needed); `polys` = a witness for the k polynomials, highest degree first.  The
+\* property fixes what the polynomials are made of, not the order in which a dealer consumes its
+\* draws: the constant terms are the secret's elements and the other coefficients are SEPARATE
+\* draws (an injection of coefficient positions into draw positions, i.e. multiset inclusion).
+\* S!DealPolys (the order the current code uses; explored exhaustively by MC_ShamirSmall) is one such dealer.
+Count(seq, v) == Cardinality({j \in 1..Len(seq) : seq[j] = v})
+Injects(c, d) == \A i \in 1..Len(c) : Count(c, c[i]) <= Count(d, c[i])
+NonConst(polys, nd) ==
+  IF nd = 0 THEN <<>>
+  ELSE [i \in 1..(Len(polys) * nd) |-> polys[((i - 1) \div nd) + 1][((i - 1) % nd) + 1]]
 TDeal ==
   /\ IsEv("Deal")
   /\ LET r == Recs[l]
+         nd == S!NDraws(r.t)
      IN /\ \A e \in 1..Len(r.secret) : IsElem(r.secret[e])
         /\ \A e \in 1..Len(r.draws) : IsElem(r.draws[e])
-        /\ Len(r.draws) = Len(r.secret) * S!NDraws(r.t)
-        /\ deals' = Append(deals, [t |-> r.t, polys |-> S!DealPolys(r.secret, r.draws, r.t)])
+        /\ Len(r.polys) = Len(r.secret)
+        /\ \A e \in 1..Len(r.polys) :
+              /\ Len(r.polys[e]) = nd + 1
+              /\ \A i \in 1..(nd + 1) : IsElem(r.polys[e][i])
+              /\ r.polys[e][nd + 1] = r.secret[e]
+        /\ Injects(NonConst(r.polys, nd), r.draws)
+        /\ deals' = Append(deals, [t |-> r.t, polys |-> r.polys])
   /\ UNCHANGED shares
 
 \* a secret holding an out-of-range element is refused, not altered
@@ -33,7 +49,7 @@ TRefuse == /\ IsEv("DealRefused")
            /\ UNCHANGED <<deals, shares>>
 
 \* a share obtained from the evaluator: a point on every polynomial of its dealing, x # 0;
-\* the sequential iterator yields x = 1, 2, 3, ...
+\* the shares of the sequential iterator have pairwise distinct x (so any t of them combine)
 TShare ==
   /\ IsEv("Share")
   /\ LET r == Recs[l]
@@ -41,8 +57,9 @@ TShare ==
          sh == [x |-> r.x, y |-> r.y]
      IN /\ IsElem(r.x) /\ r.x # Zero
         /\ S!OnPolys(d.polys, sh)
-        /\ r.kind = "next" => r.x = Small(r.idx)
-        /\ shares' = Append(shares, [deal |-> r.deal, x |-> r.x, y |-> r.y])
+        /\ r.kind = "next" =>
+              \A i \in 1..Len(shares) : (shares[i].deal = r.deal /\ shares[i].kind = "next") => shares[i].x # r.x
+        /\ shares' = Append(shares, [deal |-> r.deal, kind |-> r.kind, x |-> r.x, y |-> r.y])
   /\ UNCHANGED deals
 
 \* Sharks(t).recover(selection of recorded shares): refusal rules, and the result is the
